@@ -307,15 +307,26 @@ def run(ctx):
                 r.check(m.get("link_count", "").endswith("link_count") and m.get("event_count", "").endswith("event_count") and m.get("command_count", "").endswith("command_count"),
                         "make_pulse/fields", mp.loc(line), "pulse fields are copied from the snapshot's fields of the same name", "make_pulse mixes up snapshot fields: %s" % m)
 
-    with ctx.rule("C20.R8", "T1", "a link is only ever recorded for a remote that is attached", floor=1) as r:
-        he = ctx.saw(rt.fn(name="handle_event", self_adt="task::WriteTaskState"))
-        ins = [c for c in he.calls if c.is_method("links::Links", "insert")]
-        if len(ins) != 1:
-            raise AnchorMissing("handle_event: links.insert")
-        rem = describe_operand(he, ins[0].args[2])
-        g = dom_guards(he, ins[0].block)
-        r.check(any(d.startswith("has_remote(") and rem in d and l == "true" for d, l, _ in g), "handle_event/implicit-link-only-for-attached-remote", ins[0].loc(), "links.insert under remote_tracker.has_remote(remote) == true",
-                "the implicit link of handle_event is not guarded by has_remote: a response for a removed remote is counted as a link for ever")
+    with ctx.rule("C20.R8", "T1", "a link is only ever recorded for a remote that is attached", floor=2) as r:
+        # Links is what the reporters count. An entry for a remote that the tracker does not hold is never written to and is removed only when that
+        # remote unlinks or the lane fails: it is reported as a link (and its lane's events as deliveries) for as long as the agent runs.
+        sites = []
+        for b in rt.all_bodies():
+            if "::tests" in b.defpath:
+                continue
+            for c in b.calls:
+                if c.is_method("links::Links", "insert") and "links::Links" not in b.defpath.split("::{closure")[0].rsplit("::", 1)[0]:
+                    sites.append((b, c))
+        if len(sites) < 2:
+            raise AnchorMissing("callers of Links::insert: expected handle_event and handle_task_message, found %d" % len(sites))
+        for b, c in sites:
+            ctx.saw(b)
+            rem = describe_operand(b, c.args[2]).lstrip("&")
+            g = dom_guards(b, c.block)
+            fn = b.defpath.split("::")[-2] if b.defpath.endswith("}") else b.defpath.split("::")[-1]
+            key = "handle_event/implicit-link-only-for-attached-remote" if fn == "handle_event" else "%s/link-only-for-attached-remote" % fn
+            r.check(any(d.startswith("has_remote(") and rem in d and l == "true" for d, l, _ in g), key, c.loc(), "links.insert under remote_tracker.has_remote(remote) == true",
+                    "links.insert(.., %s) is not guarded by has_remote(%s): a link for a remote that is not attached is counted for ever (nothing is ever written to it and nothing removes it)" % (rem, rem))
 
 
     with ctx.rule("C20.R7", "T5", "named arguments are passed in their parameters' positions (no two flags or ids change places at a call site)", floor=3) as r:
